@@ -39,10 +39,12 @@ import (
 
 var c31Tokens = []string{
 	"*", "$", "+",
-	"0", "1", "2", "-1", "-2", "3", "1000000000", "2147483647", "9223372036854775807", "99999999999999999999",
+	"0", "1", "2", "-1", "-2", "3", "1048576", "536870912", "1000000000", "2147483647", "9223372036854775807", "99999999999999999999",
 	"\r\n", "\n", "a", "ab",
 	// the empty token of the design's alphabet only shortens a sequence; enumerating every
-	// length 0..L covers it.
+	// length 0..L covers it. 1048576 and 536870912 are the largest multibulk count / bulk
+	// length redis-server (and the gateway since 2034b78) accepts: declared sizes that are
+	// legal but far larger than the bytes that follow.
 }
 
 const (
@@ -1009,7 +1011,7 @@ func TestVerifC31(t *testing.T) {
 		Level:       "exploration",
 		Evaluations: evals,
 		Distinct:    c["nontrivial"],
-		Rule:        fmt.Sprintf("every token sequence of length <= %d over %d tokens {* $ + ten boundary integers CRLF LF a ab} (plus, after each of 3 array-frame prefixes, every sequence of length <= L-2) fed byte-wise and at once to the real parseRESP loop; the same for length <= %d fed to the real handleConn; generated well-formed array/inline frames (and pairs) for the round trip; non-trivial = streams from which the parser produced at least one command with arguments", L, len(c31Tokens), connL),
+		Rule:        fmt.Sprintf("every token sequence of length <= %d over %d tokens {* $ + twelve boundary integers CRLF LF a ab} (plus, after each of 3 array-frame prefixes, every sequence of length <= L-2) fed byte-wise and at once to the real parseRESP loop; the same for length <= %d fed to the real handleConn; generated well-formed array/inline frames (and pairs) for the round trip; non-trivial = streams from which the parser produced at least one command with arguments", L, len(c31Tokens), connL),
 		Samples:     samples,
 		Exhaustive:  exhaustive,
 		Outcomes:    outcomes,
